@@ -70,7 +70,9 @@ def write_nf(facts, body, cb_const, sink="arg2"):
     norm = E.Normalizer(facts, cb_const=cb_const)
     for s in E.sinks_in(ev):
         if s != sink:
-            E.fold(ev, s, norm)
+            # a scratch sink holds whatever the previous use left behind until it is cleared: its contents count from the
+            # last `clear()` in this body only
+            E.fold(ev, s, norm, start=E.nf_atom("LEFTOVER[%s]" % s))
     return NFX(E.fold(ev, sink, norm)), ev
 
 
@@ -285,7 +287,11 @@ def rule_residual(facts):
                 if parts is not None:
                     mx = [p for p in parts if p[0] == "call" and re.search(r"find_max|reduce_max|simd_map_and_reduce", p[1])
                           and p[2] and p[2][0] == src]
-                    g = bool(mx)
+                    # the other factor must bound the number of summed elements: the block size the residual is built
+                    # for (every lane total ends up in one 32-bit sum) or the vector's own length
+                    others = [p for p in parts if p not in mx]
+                    nbound = {E.canon(fval[fBS]), E.canon(("len", src))}
+                    g = bool(mx) and len(others) == 1 and E.canon(others[0]) in nbound
             ok = True
             for lab, v in e[2]:
                 ok = ok and sums_of(v, src, guarded=(g and lab == 1))
@@ -563,11 +569,21 @@ def _flatten(events):
             yield e
 
 
-def run(facts, tier, ctx):
+def size_rules(facts):
+    """write == count_bits for every component (shared with C04, C05, C09, C18)."""
     out = []
     out += rule_effect(facts)
     out += rule_residual(facts)
     out += rule_utf8(facts)
     out += rule_extra(facts)
+    return out
+
+
+def run(facts, tier, ctx):
+    out = size_rules(facts)
     out += rule_precompute(facts)
+    # "bits written" is what the in-memory sinks record: frame bodies are staged in a word sink and measured by its length
+    # (C11 LENGTH / WORDCOUNT: every sink operation advances the recorded length by the ideal count)
+    from . import c11
+    out += [r for r in c11.rule_length(facts, facts.impls_of_trait("bitsink::BitSink")) if r.rule in ("LENGTH", "WORDCOUNT", "PADFORMULA")]
     return out
